@@ -95,6 +95,35 @@ def _atomic_sites(program):
     return sites
 
 
+def _local_function(program, func, name, depth=0):
+    '''FunctionDef bound to `name` in `func`: a nested def, or - when `name`
+    is a parameter - the nested def every caller of `func` passes for it.'''
+    for node in ast.walk(func.node):
+        if isinstance(node, ast.FunctionDef) and node.name == name and \
+                node is not func.node:
+            return node
+    if name in func.params and depth < 2:
+        found = []
+        for caller in func.module.functions.values():
+            for call in calls_in(caller.node, include_nested_defs=False):
+                if call_name(call) != func.name:
+                    continue
+                params = [p for p in func.params if p not in ('self', 'cls')]
+                actual = None
+                if name in params and params.index(name) < len(call.args):
+                    actual = call.args[params.index(name)]
+                for kwd in call.keywords:
+                    if kwd.arg == name:
+                        actual = kwd.value
+                if isinstance(actual, ast.Name):
+                    found.append(_local_function(program, caller, actual.id,
+                                                 depth + 1))
+        if found and all(f is not None for f in found) and len(
+                {id(f) for f in found}) == 1:
+            return found[0]
+    return None
+
+
 def bind_roles(program, func, call, bound_args):
     '''Roles of the bound arguments from their definitions in the caller:
     deps <- <full graph>.dependencies(task), hard <- <hard graph>....'''
@@ -103,6 +132,37 @@ def bind_roles(program, func, call, bound_args):
         if isinstance(node, ast.Assign) and len(node.targets) == 1 and \
                 isinstance(node.targets[0], ast.Name):
             defs.setdefault(node.targets[0].id, []).append(node.value)
+    # `deps, hard_deps = deps_of(task)`: a local function (possibly handed
+    # over as a parameter by the caller) returning the collections as a tuple
+    for node in ast.walk(func.node):
+        if not (isinstance(node, ast.Assign) and len(node.targets) == 1 and
+                isinstance(node.targets[0], ast.Tuple) and isinstance(
+                    node.value, ast.Call) and isinstance(
+                        node.value.func, ast.Name)):
+            continue
+        fdef = _local_function(program, func, node.value.func.id)
+        if fdef is None:
+            continue
+        rets = [r for r in ast.walk(fdef) if isinstance(r, ast.Return) and
+                isinstance(r.value, ast.Tuple)]
+        if len(rets) != 1 or len(rets[0].value.elts) != len(
+                node.targets[0].elts):
+            continue
+        fparams = [a.arg for a in fdef.args.args]
+        if len(fparams) != len(node.value.args):
+            continue
+        import copy as _copy
+
+        class _Sub(ast.NodeTransformer):
+            def visit_Name(self, sub):
+                if sub.id in fparams:
+                    return _copy.deepcopy(
+                        node.value.args[fparams.index(sub.id)])
+                return sub
+        for tgt, val in zip(node.targets[0].elts, rets[0].value.elts):
+            if isinstance(tgt, ast.Name):
+                defs.setdefault(tgt.id, []).append(
+                    _Sub().visit(_copy.deepcopy(val)))
     roles = {}
     for idx, arg in enumerate(bound_args):
         name = txt(arg)
@@ -698,13 +758,16 @@ def check_topo(ctx):
                       'not recognised', at=func.where(call))
         return
     tasks_param = loop.iter.id
-    if tasks_param not in func.params or deps_graph not in func.params:
-        ctx.undecided('TOPO', func, f'{tasks_param} / {deps_graph} are not '
-                      f'parameters of {func.name}', at=func.where(call))
+    if tasks_param not in func.params:
+        ctx.undecided('TOPO', func, f'{tasks_param} is not a parameter of '
+                      f'{func.name}', at=func.where(call))
         return
     off = 1 if func.params[0] in ('self', 'cls') else 0
     pos_tasks = func.params.index(tasks_param) - off
-    pos_graph = func.params.index(deps_graph) - off
+    # the graph is a parameter of the function, or (dependencies looked up
+    # through a local function of the caller) a name of the caller itself
+    pos_graph = func.params.index(deps_graph) - off \
+        if deps_graph in func.params else None
     found = 0
     for caller in program.all_functions():
         if not caller.module.name.startswith(BACKENDS):
@@ -716,11 +779,12 @@ def check_topo(ctx):
                 defs.setdefault(node.targets[0].id, []).append(node.value)
         for sub in calls_in(caller.node):
             if call_name(sub) != func.name or len(sub.args) <= max(
-                    pos_tasks, pos_graph):
+                    pos_tasks, pos_graph or 0):
                 continue
             found += 1
-            tasks_arg, graph_arg = sub.args[pos_tasks], txt(
-                sub.args[pos_graph])
+            tasks_arg = sub.args[pos_tasks]
+            graph_arg = txt(sub.args[pos_graph]) if pos_graph is not None \
+                else deps_graph
             sorts = [v for v in defs.get(txt(tasks_arg), [])
                      if isinstance(v, ast.Call) and call_name(v) ==
                      'topological_sort']
@@ -901,7 +965,7 @@ def check_graph_rebound(ctx):
             ctx.holds('GRAPH-WHOLE', func,
                       f'{func.name}: {sorted(graph_vars)} used as given',
                       at=func.where(), nontrivial=False)
-    ctx.floor('GRAPH-WHOLE-backend', n, 2, 'backend functions taking a graph')
+    ctx.floor('GRAPH-WHOLE-backend', n, 1, 'backend functions taking a graph')
 
 
 def check_decision_inputs(ctx):
